@@ -12,9 +12,10 @@ VARIABLES tid, l
 ASSUME \A t \in 1..NT : TLCSet(t, 0)
 
 HOf(hs)  == [i \in Leaf |-> ToSet(hs[i])]
+GOf(hs)  == [b \in Blk |-> hs[b - NLeaf]]
 NOf(ns)  == [i \in Leaf |-> [n \in Nuc |-> ns[i][n]]]
 TInit == /\ tid \in 1..NT /\ l = 1
-         /\ N = NOf(Traces[tid].init.N) /\ H = HOf(Traces[tid].init.H)
+         /\ N = NOf(Traces[tid].init.N) /\ H = HOf(Traces[tid].init.H) /\ hgt = GOf(Traces[tid].init.hgt)
          /\ tr = FALSE /\ act = [n |-> "Init"] /\ err = "" /\ depth = 1
 Ev == Traces[tid].ev[l]
 A  == Ev.a
@@ -28,10 +29,14 @@ Step ==
     \/ A.n = "RemoveMass" /\ RemoveMass(A.x, A.nuc, A.m)
     \/ A.n = "SetMass" /\ SetMass(A.x, A.nuc, A.m)
     \/ A.n = "SetMassFracs" /\ SetMassFracs(A.x, A.m)
+    \/ A.n = "AddMasses" /\ AddMasses(A.x, A.m)
+    \/ A.n = "SetMasses" /\ SetMasses(A.x, A.m)
+    \/ A.n = "SetHeight" /\ SetHeight(A.x, A.h, A.cons)
 Post == [N |-> N, H |-> HB(H), err |-> err]
-ObsMatch == \/ (N' = NOf(Ev.post.N) /\ H' = HOf(Ev.post.H) /\ err' = Ev.post.err)
-            \/ /\ ~(N' = NOf(Ev.post.N) /\ H' = HOf(Ev.post.H) /\ err' = Ev.post.err)
-               /\ PrintT(ToJson([mismatch |-> Traces[tid].id, at |-> l, expected |-> [N |-> N', H |-> [i \in Leaf |-> SetToSeq(H'[i])], err |-> err']]))
+Matches == N' = NOf(Ev.post.N) /\ H' = HOf(Ev.post.H) /\ hgt' = GOf(Ev.post.hgt) /\ err' = Ev.post.err
+ObsMatch == \/ Matches
+            \/ /\ ~Matches
+               /\ PrintT(ToJson([mismatch |-> Traces[tid].id, at |-> l, expected |-> [N |-> N', H |-> [i \in Leaf |-> SetToSeq(H'[i])], hgt |-> hgt', err |-> err']]))
                /\ FALSE
 \* a history ends with {"outside": TRUE} when the real result is not a rational of the model's bounded domain of magnitudes
 \* (LMax / VMax): that is accepted only if the model agrees that the edit leaves the domain (the step is not enabled)
